@@ -15,6 +15,8 @@ value and the outcome of the rescore query on it.  Everything after that is mode
   accepted document when `explain` is set and the sort is not the score fast path
   (`k = max(limit, candidate_size, rescore.window_size) + 1`; `legacySearch` is the code before
   /repo 089be57, whose `k` ignored the rescore window);
+* the score mode: scores are always computed (since /repo 8218789, a5f1a65; `legacyScoreSearch`
+  keeps the old rule: only under a score sort, custom scoring or explain, else every hit carries 0);
 * the cursor test, which sits in the same `accept` step that feeds the aggregation collectors;
 * `rescore_hits` (window, combination per mode, `None` = removed, re-sort of the first
   `window_size` of what is left);
@@ -363,10 +365,18 @@ def post (o : ScoreOps S) (r : Req S)
     (ranked : List (Hit S)) : List (Hit S × List (Hit S)) × Option Nat × Option (Hit S) :=
   page r (grouped o r (explained r (rescored o r resc ranked)))
 
-/-- `score_mode` in `search_segment` / `default_score` in `scan_segment`: scores are computed
-only when the sort uses `_score`, the query has custom scoring, or `explain` is set; otherwise
-every accepted document carries the score 0 -/
-def scoresComputed (r : Req S) : Bool := usesScore r.plan || r.hook || r.explain
+/-- `score_mode` in `search_segment` / `default_score` in `scan_segment` **before** /repo 8218789
+and a5f1a65: scores were computed only when the sort uses `_score`, the query has custom scoring,
+or `explain` is set; otherwise every accepted document carried the score 0 -/
+def scoresComputedLegacy (r : Req S) : Bool := usesScore r.plan || r.hook || r.explain
+
+/-- the current rule (`search_segment`, /repo 8218789): `ScoreMode::Score` whenever
+`uses_score || needs_score_hook || explain || return_hits || agg_collector.is_some()`; `search`
+attaches a collector (the aggregations or the no-op one) whenever `return_hits` is false, and
+`scan_segment`'s default score no longer depends on the sort (a5f1a65).  So scores are always
+computed (`scoresComputed_true` in `Lemmas/Post`). -/
+def scoresComputed (r : Req S) : Bool :=
+  usesScore r.plan || r.hook || r.explain || r.returnHits || !r.returnHits
 
 def seen (o : ScoreOps S) (r : Req S) (h : Hit S) : Hit S :=
   if scoresComputed r then h else { h with score := o.zero }
@@ -375,6 +385,23 @@ def seen (o : ScoreOps S) (r : Req S) (h : Hit S) : Hit S :=
 def search (o : ScoreOps S) (r : Req S) (matched0 : List (Hit S)) : Resp S :=
   let lt := klt o r.plan
   let matched := matched0.map (seen o r)
+  let after := afterCursor lt r.cursor matched
+  let p :=
+    if r.returnHits then
+      post o r (rescore o) (fetch lt (isFast r.plan) r.explain (topKOf r) r.nseg after)
+    else ([], none, none)
+  { hits := p.1, total := after.length + returned r.cursor, totalGroups := p.2.1, next := p.2.2,
+    aggTerms := aggTerms after, aggCount := aggCount r.aggField after, profile := r.profile }
+
+/-- the hit as the code before /repo 8218789 / a5f1a65 saw it -/
+def seenLegacy (o : ScoreOps S) (r : Req S) (h : Hit S) : Hit S :=
+  if scoresComputedLegacy r then h else { h with score := o.zero }
+
+/-- the code before /repo 8218789 / a5f1a65 (scores only under a score sort, custom scoring or
+explain); kept for the `legacy_…` witnesses that document the repaired defect -/
+def legacyScoreSearch (o : ScoreOps S) (r : Req S) (matched0 : List (Hit S)) : Resp S :=
+  let lt := klt o r.plan
+  let matched := matched0.map (seenLegacy o r)
   let after := afterCursor lt r.cursor matched
   let p :=
     if r.returnHits then
